@@ -135,7 +135,10 @@ static void c06_run_shape (const shape_t *sh, int variant, int leaf, long k, int
   if (vm_selftest == 1 && !measuring) vec[2].v[0]++;              /* self-test: corrupt the observation */
   if (!measuring) {
     vm_fault_ctx = ctx;
-    report_leak (&vec[1], &vec[2], k ? vm_ctx_name () : "no-fault");
+    char what[120];
+    if (leaf) snprintf (what, sizeof what, "error-site:%s:%s", vm_leaf_names[leaf], variant ? "caught" : "uncaught");
+    else snprintf (what, sizeof what, "%s", k ? vm_ctx_name () : "no-fault");
+    report_leak (&vec[1], &vec[2], what);
   }
 }
 
